@@ -201,7 +201,9 @@ def _e2_shards(tier):
             J = max(1, -(-size // TARGET[tier]))
             for j in range(J):
                 shards.append((size // J, ("e2", n, A, header, j, J)))
-    shards.sort(key=lambda t: -t[0])
+    # the small programs first (their failures are the minimal counterexamples and must not fall victim to the cap
+    # on stored failure records), then the expensive shards in decreasing size for load balance
+    shards.sort(key=lambda t: (0, t[1][1], 0) if t[1][1] <= 4 else (1, 0, -t[0]))
     return [d for _, d in shards]
 
 
